@@ -3,7 +3,7 @@
 // itself and the MIME structure parsing — mail-parser — are outside.)
 use cascette_protocol::mime_parser::verif_access::extract_checksum;
 
-const P: usize = 12; // payload bytes (symbolic: may itself contain the text "Checksum: ")
+const P: usize = 10; // payload bytes (symbolic: may itself be the text "Checksum: ")
 const TRAILER: &[u8; 75] = b"Checksum: 00112233445566778899aabbccddeeff00112233445566778899aabbccddeeff\n";
 
 macro_rules! mime_h {
@@ -55,7 +55,7 @@ fn $name() {
     };
 }
 // @family prop=C07 tier=quick timeout=900 role=mime-checksum-line-selection
-// @bounds response = 12 symbolic payload bytes (any content, incl. the text "Checksum: " followed by junk) + a well-formed trailing checksum line (concrete 64 hex digits), LF or CRLF per harness
+// @bounds response = 10 symbolic payload bytes (any content, incl. the text "Checksum: " followed by junk) + a well-formed trailing checksum line (concrete 64 hex digits), LF or CRLF per harness
 // @encodes cascette_protocol::mime_parser::extract_checksum
 // @assumes tracing neutralised; SHA-256 comparison (validate_checksum, format!) and mail-parser outside
 // @catches first instead of last "Checksum: " occurrence honoured, protected region cut at the wrong place, CR/LF handling dropping a hex digit
